@@ -75,9 +75,15 @@ def fill(rng, c, tag, nrel):
         subj = {0: e, 1: a, 2: a, 3: a, 4: e, 5: e, 6: e, 7: a, 8: g, 9: e, 10: e, 11: e}[k]
         want_id = mode.setdefault((k, subj.identifier.uri), rng.random() < 0.5)
         ident = EX["%sr%d" % (tag, n)] if want_id else None
-        oa = attrs(rng) if ident is not None else None
+        # an anonymous relation may be attributed (optional arguments, time, extra attributes) for the kinds
+        # whose qualified form the reader can re-attach: generation, usage, start, invalidation, derivation,
+        # association (property quantifier)
+        attributed = ident is None and k in (0, 1, 3, 4, 5, 7) and rng.random() < 0.5
+        oa = attrs(rng) if (ident is not None or attributed) else None
+        if oa and ident is None:
+            oa = [(a, v) for a, v in oa if a != "prov:type"] or None
         t = rng.choice([None] + TIMES)
-        qualified = ident is not None
+        qualified = ident is not None or attributed
         if k == 0:
             c.wasGeneratedBy(e, a, t if qualified else None, identifier=ident, other_attributes=oa)
         elif k == 1:
@@ -114,4 +120,15 @@ def simple_doc(rng, bundles=True):
         for j in range(rng.choice([1, 2])):
             b = d.bundle(EX["bundle%d" % j])
             fill(rng, b, "b%d" % j, rng.choice([1, 2]))
+    return d
+
+
+def big_doc(rng, n_entities):
+    """a document of the same space whose serialisations exceed the usual stream buffer sizes (8 KiB, 64 KiB),
+    dense in multi-byte characters (so that any chunk boundary is likely to fall inside one)"""
+    d = simple_doc(rng)
+    words = ["ファイル名", "ünïcødé", "\U0001F600\U0001F680", "данные", "数据"]
+    for i in range(n_entities):
+        w = rng.choice(words)
+        d.entity(EX["big%d" % i], [(EX["note"], w * rng.randrange(12, 40)), ("prov:label", M.Literal(w * 3 + str(i), langtag="ja"))])
     return d
